@@ -64,7 +64,8 @@
      SS4  the database is asked only after the ECU refused DiagnosticSessionControl(level), only with a
           database and use_db, only for `level`                                                          [L-db]
      SS5  after a refusal (database present, use_db) the database IS asked; if it knows steps, exactly the
-          steps are requested in order and then `level` again; otherwise nothing more is requested       [L-db]
+          steps are requested in order and then `level` again (whether the walk goes on after the ECU
+          refused a step is not specified); otherwise nothing more is requested                          [L-db]
      SS6  the steps used are a row stored for this target and destination; a stored row is found        [L-db]
      SS7  the post hook for a session runs only after that session's request; after a successful change
           (hooks not skipped) the post hook for `level` has run                                          [D-post]
@@ -111,7 +112,7 @@ Outs == {"pos", "neg", "silent"}
 
 M0 == [fail |-> "ok", c |-> [flow |-> "none"], done |-> FALSE, unspec |-> 0, nreq |-> 0,
        \* set
-       phase |-> "first", pre |-> FALSE, postAfter |-> FALSE, todo |-> <<>>, lastlevel |-> "none", dscd |-> {},
+       phase |-> "first", walkneg |-> FALSE, pre |-> FALSE, postAfter |-> FALSE, todo |-> <<>>, lastlevel |-> "none", dscd |-> {},
        cur |-> 0, csec |-> -1,
        \* leave
        needPing |-> FALSE, lastneg |-> FALSE, mustCycle |-> FALSE, off |-> FALSE, offT |-> 0, reached |-> FALSE,
@@ -148,7 +149,7 @@ SetStep(m, e) ==
               (IF e.s # Head(m.todo) THEN Fail(m, "SS5/fallback-does-not-follow-the-stored-steps")
                ELSE IF Len(m.todo) = 1
                     THEN [m1 EXCEPT !.todo = <<>>, !.phase = "end", !.lastlevel = e.out, !.postAfter = FALSE]
-                    ELSE [m1 EXCEPT !.todo = Tail(@)])
+                    ELSE [m1 EXCEPT !.todo = Tail(@), !.walkneg = @ \/ ~ok])
          ELSE Fail(m, "SS5/session-control-request-after-the-flow-was-complete")
     [] e.e = "Db" ->
          IF m.phase # "wantdb" THEN Fail(m, "SS4/database-asked-without-a-refused-session-change")
@@ -159,12 +160,12 @@ SetStep(m, e) ==
          ELSE IF e.found THEN [m EXCEPT !.phase = "walk", !.todo = e.steps \o <<c.level>>]
          ELSE [m EXCEPT !.phase = "end"]
     [] e.e = "Ret" ->
-         LET m1 == [m EXCEPT !.done = TRUE, !.unspec = IF m.sawSilent THEN 1 ELSE 0] IN
+         LET m1 == [m EXCEPT !.done = TRUE, !.unspec = IF m.sawSilent \/ m.walkneg THEN 1 ELSE 0] IN
          IF e.val = "hang" THEN Fail(m1, "L0/call-never-returned")
          ELSE IF m.sawSilent THEN m1   \* an unanswered request: the sources are silent about the outcome
          ELSE IF m.phase = "first" THEN Fail(m1, "SS3/returned-without-a-session-control-request")
          ELSE IF m.phase = "wantdb" THEN Fail(m1, "SS5/no-database-fallback-after-the-refusal")
-         ELSE IF m.phase = "walk" THEN Fail(m1, "SS5/fallback-walk-incomplete")
+         ELSE IF m.phase = "walk" /\ ~m.walkneg THEN Fail(m1, "SS5/fallback-walk-incomplete")
          ELSE IF e.val = "raise" THEN Fail(m1, "SS8/raised-although-the-ecu-answered")
          ELSE IF e.val # m.lastlevel THEN Fail(m1, "SS8/result-is-not-the-answer-to-the-last-request")
          ELSE IF ~c.skip /\ e.val = "pos" /\ ~m.postAfter THEN Fail(m1, "SS7/no-post-hook-after-a-successful-change")
